@@ -128,6 +128,28 @@ def hand_cases():
                     "stage A4(\n    in  int a,\n    in  int b,\n    in  int c,\n    out int y,\n    src py \"a\",\n)\n\npipeline TOP(\n    out map<int> ys,\n)\n{\n"
                     "    map call A4(\n        a = split {\"p\": 1, \"q\": 2, \"r\": 3, \"s\": 4},\n        b = split {\"t\": 1, \"u\": 2, \"v\": 3, \"w\": 4},\n"
                     "        c = split {\"x\": 1, \"y\": 2, \"z\": 3, \"p\": 4},\n    )\n\n    return (\n        ys = A4.y,\n    )\n}\n\ncall TOP(\n)\n"))
+    # a retained output of a sub-pipeline that is a map literal of file references, and an
+    # untyped map parameter given references (an error that names one of them)
+    fstage = "stage F(\n    in  int x,\n    out file f,\n    src py \"f\",\n)\n\n"
+    out.append(prog("retained_subpipe_map",
+                    fstage + "pipeline SUB(\n    in  int x,\n    out map<file> all,\n)\n{\n" +
+                    "".join("    call F as F%d(\n        x = self.x,\n    )\n\n" % i for i in range(7)) +
+                    "    return (\n        all = {\n" + "".join("            \"k%d\": F%d.f,\n" % (i, i) for i in (2, 5, 3, 0, 6, 1, 4)) + "        },\n    )\n}\n\n"
+                    "pipeline TOP(\n    in  int x,\n    out map<file> all,\n)\n{\n    call SUB(\n        x = self.x,\n    )\n\n"
+                    "    return (\n        all = SUB.all,\n    )\n\n    retain (\n        SUB.all,\n    )\n}\n\ncall TOP(\n    x = 1,\n)\n"))
+    out.append(prog("untyped_map_refs",
+                    fstage + "stage U(\n    in  map m,\n    out int n,\n    src py \"u\",\n)\n\n"
+                    "pipeline TOP(\n    in  int x,\n    out int n,\n)\n{\n" +
+                    "".join("    call F as F%d(\n        x = self.x,\n    )\n\n" % i for i in range(6)) +
+                    "    call U(\n        m = {\n" + "".join("            \"k%d\": F%d.f,\n" % (i, i) for i in (4, 1, 5, 0, 3, 2)) + "        },\n    )\n\n"
+                    "    return (\n        n = U.n,\n    )\n}\n\ncall TOP(\n    x = 1,\n)\n"))
+    # sources in several directories, none of which has the stage code: the message lists where it was searched
+    out.append({"id": "srcdirs", "top": "top.mro",
+                "files": {"top.mro": "@include \"a/x.mro\"\n@include \"b/y.mro\"\n@include \"c/d/z.mro\"\n@include \"e/w.mro\"\n\ncall SX(\n    x = 1,\n)\n",
+                          "a/x.mro": "stage SX(\n    in  int x,\n    src py \"stages/sx\",\n)\n",
+                          "b/y.mro": "stage SY(\n    in  int x,\n    src py \"stages/sy\",\n)\n",
+                          "c/d/z.mro": "stage SZ(\n    in  int x,\n    src py \"stages/sz\",\n)\n",
+                          "e/w.mro": "stage SW(\n    in  int x,\n    src comp \"bin/sw arg\",\n)\n"}})
     # the empty string among the keys one split map has and the other lacks
     out.append(prog("errors_mapkeys_empty",
                     "stage A2(\n    in  int a,\n    in  int b,\n    out int y,\n    src py \"a\",\n)\n\npipeline TOP(\n    out map<int> ys,\n)\n{\n"
